@@ -206,10 +206,22 @@ func (l *Lexer) Next() (TokenType, []byte) {
 func (l *Lexer) shiftDOCTYPEText() []byte {
 	inString := false
 	inBrackets := false
+	var quote byte // the quote that opened the literal we are in: a literal ends at the same quote
 	for {
 		c := l.r.Peek(0)
-		if c == '"' {
+		if (c == '"' || c == '\'') && (!inString || c == quote) {
 			inString = !inString
+			quote = c
+		} else if inBrackets && !inString && c == '<' && l.r.Peek(1) == '!' && l.r.Peek(2) == '-' && l.r.Peek(3) == '-' {
+			// a comment in the internal subset: brackets and quotes in it mean nothing
+			l.r.Move(4)
+			for {
+				if c := l.r.Peek(0); c == 0 || c == '-' && l.r.Peek(1) == '-' && l.r.Peek(2) == '>' {
+					break
+				}
+				l.r.Move(1)
+			}
+			continue
 		} else if (c == '[' || c == ']') && !inString {
 			inBrackets = (c == '[')
 		} else if c == '>' && !inString && !inBrackets {
